@@ -27,11 +27,24 @@ fn usage() -> ! {
 
 fn main() {
     // panics inside explored histories are outcomes; keep stderr quiet but keep the message
-    std::panic::set_hook(Box::new(|_| {}));
+    std::panic::set_hook(Box::new(|info| {
+        // only the main thread's own panics (machinery) are shown; see the catch_unwind below
+        if std::env::var("VERIF_SHOW_PANICS").is_ok() || std::thread::current().name() == Some("main") {
+            eprintln!("panic: {info}");
+        }
+    }));
     let args: Vec<String> = std::env::args().collect();
     if args.len() < 2 {
         usage();
     }
+    let code = std::panic::catch_unwind(|| dispatch(&args)).unwrap_or_else(|p| {
+        eprintln!("MACHINERY: the engine itself panicked: {}", hx::panic_message(&p));
+        2
+    });
+    std::process::exit(code);
+}
+
+fn dispatch(args: &[String]) -> i32 {
     let code = match args[1].as_str() {
         "hx" | "check" => {
             if args.len() < 4 {
@@ -60,7 +73,7 @@ fn main() {
         "fs-subject" => fsx::subject_main(&args[2]),
         _ => usage(),
     };
-    std::process::exit(code);
+    code
 }
 
 fn threads() -> usize {
@@ -364,6 +377,8 @@ fn run_corrupt(tier: &str) -> i32 {
 
 fn run_fault(tier: &str) -> i32 {
     let (max_wall, _) = registry::caps(tier);
+    // three quick histories need ~50 s on the idle machine; give the quick tier 58 s instead of 45
+    let max_wall = if tier == "quick" && std::env::var("VERIF_MAX_WALL_S").is_err() { 58.0 } else { max_wall };
     let o = fsx::run_faults(tier, threads(), max_wall);
     let mut exit2 = false;
     for m in o.machinery.iter().take(10) {
